@@ -509,58 +509,9 @@ func ruleGuards(c *Ctx) {
 				return
 			}
 			// every use of the looked-up value must be reached only when ok is true
-			n := NewNormer(c.P)
-			n.Bind[okV] = "ok"
 			bad := ""
 			if valV != nil {
-				for _, r := range *valV.Referrers() {
-					if _, dbg := r.(*ssa.DebugRef); dbg {
-						continue
-					}
-					uses := []ssa.Instruction{r}
-					// value spilled to a local: follow the loads
-					if st, ok := r.(*ssa.Store); ok {
-						if a, _, ok := rootAlloc(st.Addr); ok && !a.Heap {
-							uses = nil
-							for _, ar := range *a.Referrers() {
-								switch fa := ar.(type) {
-								case *ssa.FieldAddr:
-									for _, r2 := range *fa.Referrers() {
-										uses = append(uses, r2)
-									}
-								case *ssa.IndexAddr: // array-typed pattern kept in a local
-									for _, r2 := range *fa.Referrers() {
-										uses = append(uses, r2)
-									}
-								case *ssa.UnOp:
-									uses = append(uses, fa)
-								}
-							}
-						}
-					}
-					if ph, ok := r.(*ssa.Phi); ok {
-						// interleaved 2-of-5 merges the patterns of two lookups: check at the phi's users
-						uses = nil
-						for _, r2 := range *ph.Referrers() {
-							uses = append(uses, r2)
-						}
-					}
-					for _, u := range uses {
-						if u.Block() == lk.Block() {
-							if _, isSt := u.(*ssa.Store); isSt {
-								continue
-							}
-						}
-						rc := n.ReachCond(site.Fn, lk.Block(), u.Block())
-						if u.Block() == lk.Block() {
-							continue
-						}
-						imp, _, _ := CondRelation(rc, &Cond{Kind: CBool, Name: "ok"})
-						if !imp {
-							bad = "value used at " + c.P.Pos(instrPos(u)) + " although the lookup may have failed"
-						}
-					}
-				}
+				bad = guardedUses(c, site.Fn, lk.Block(), valV, okV, 0)
 			}
 			c.Check(R7, key, lk.Pos(), bad == "", "looked-up pattern/value used only under ok", orOK(bad))
 		})
@@ -578,4 +529,123 @@ func globalOfLoad(v ssa.Value) (*ssa.Global, bool) {
 	}
 	g, ok := ld.X.(*ssa.Global)
 	return g, ok
+}
+
+// guardedUses: every consuming use of val (a value obtained together with the success flag ok at
+// block def of fn) is reached only when ok holds. Projections, conversions, spills into locals and
+// phis are followed to their own uses; a return that hands both val and ok to the caller moves the
+// obligation to every call site of fn.
+func guardedUses(c *Ctx, fn *ssa.Function, def *ssa.BasicBlock, val, ok ssa.Value, depth int) string {
+	if depth > 2 {
+		return "value and flag are passed up through more than two helpers"
+	}
+	n := NewNormer(c.P)
+	n.Bind[ok] = "ok"
+	okAtom := &Cond{Kind: CBool, Name: "ok"}
+	seen := map[ssa.Value]bool{}
+	bad := ""
+	var follow func(v ssa.Value, d int)
+	sink := func(u ssa.Instruction) {
+		if bad != "" {
+			return
+		}
+		if ret, isRet := u.(*ssa.Return); isRet {
+			vi, oi := -1, -1
+			for i, r := range ret.Results {
+				if seen[r] || r == val {
+					vi = i
+				}
+				if r == ok {
+					oi = i
+				}
+			}
+			if vi >= 0 && oi >= 0 {
+				// both handed to the caller: check there
+				for _, cs := range c.P.callSitesOf(fn) {
+					call, isCall := cs.(*ssa.Call)
+					if !isCall {
+						bad = "helper result used by a go/defer statement"
+						return
+					}
+					var ev, eo ssa.Value
+					for _, r := range *call.Referrers() {
+						if ex, isEx := r.(*ssa.Extract); isEx {
+							if ex.Index == vi {
+								ev = ex
+							} else if ex.Index == oi {
+								eo = ex
+							}
+						}
+					}
+					if ev == nil {
+						continue
+					}
+					if eo == nil {
+						bad = "the membership flag returned by " + c.P.FuncName(fn) + " is discarded at " + c.P.Pos(call.Pos()) + " while the value is used"
+						return
+					}
+					if b := guardedUses(c, call.Parent(), call.Block(), ev, eo, depth+1); b != "" {
+						bad = b
+						return
+					}
+				}
+				return
+			}
+		}
+		rc := n.ReachCond(fn, def, u.Block())
+		if u.Block() == def {
+			rc = cTrue
+		}
+		imp, _, _ := CondRelation(rc, okAtom)
+		if !imp {
+			bad = "value used at " + c.P.Pos(instrPos(u)) + " although the lookup may have failed"
+		}
+	}
+	follow = func(v ssa.Value, d int) {
+		if seen[v] || d > 8 || bad != "" {
+			return
+		}
+		seen[v] = true
+		refs := v.Referrers()
+		if refs == nil {
+			return
+		}
+		for _, r := range *refs {
+			switch x := r.(type) {
+			case *ssa.DebugRef:
+			case *ssa.Extract, *ssa.Field, *ssa.Convert, *ssa.ChangeType, *ssa.Phi, *ssa.Slice, *ssa.MakeInterface:
+				follow(x.(ssa.Value), d+1)
+			case *ssa.FieldAddr:
+				follow(x, d+1)
+			case *ssa.IndexAddr:
+				if x.X == v {
+					follow(x, d+1)
+				} else {
+					sink(x) // used as an index
+				}
+			case *ssa.Index:
+				if x.X == v {
+					follow(x, d+1)
+				} else {
+					sink(x)
+				}
+			case *ssa.UnOp:
+				follow(x, d+1)
+			case *ssa.Store:
+				if x.Val == v {
+					if a, _, isLocal := rootAlloc(x.Addr); isLocal && !a.Heap {
+						follow(a, d+1) // spill into a local: its reads are the uses
+						continue
+					}
+				} else if _, _, isLocal := rootAlloc(x.Addr); isLocal {
+					continue // v is the address being written (initialisation of the spill)
+				}
+				sink(x)
+			default:
+				sink(r)
+			}
+		}
+	}
+	follow(val, 0)
+	return bad
 }
